@@ -64,10 +64,16 @@ def cmp_form(w):
     return c02.norm(flat(w))
 
 
-def corpus_facts(cx):
+def _first_error(txt):
+    import re as _re
+    m = _re.search(r'(error(\[E\d+\])?: [^\n]+)', txt)
+    return (m.group(1) if m else txt.strip().split('\n')[-1])[:300]
+
+
+def corpus_facts(cx, need_artefacts=False):
     d = os.path.join(factsmod.WORK, 'gen', 'corpus-%s-%d' % (cx.tier, cx.seed))
     defs = corpusgen.write_fixture(d, cx.tier, cx.seed)
-    fx = cx.fixture('corpus', d)
+    fx = cx.fixture('corpus', d, need_artefacts=need_artefacts)
     return fx, defs
 
 
@@ -117,7 +123,13 @@ def run(cx, out):
     out.rule('R13.2', 'derived max_encoded_len >= maxlen(declared layout)')
     cx.need(['D'])
     lib = cx.facts('D')
-    fx, defs = corpus_facts(cx)
+    try:
+        fx, defs = corpus_facts(cx)
+    except factsmod.BuildError as e:
+        # the library itself compiled (its facts were extracted above); the corpus consists of definitions the derive
+        # macros must accept: a corpus that no longer compiles is a wrong rejection / a wrong expansion
+        out.fail('R05.1', 'derive corpus compiles', 'a valid definition of the corpus is rejected or expanded into code that does not compile: %s' % _first_error(str(e)), 'corpus')
+        return
     unit(out, fx)
     own_impls = list(fx.impls)
     own_adts = dict(fx.adt_by_path)
@@ -233,7 +245,19 @@ def run(cx, out):
             want = [f['ty'] for f in d['fields']]
             got = [_short_ty(e[1]) for e in decs]
             okp = all(e[3] == 'decode_into' for e in decs) and got == [_short_ty(x) for x in want]
-            out.ob('R05.5', 'decode_into fields %s' % nm, okp, 'in-place path decodes %s, declared fields %s' % (got, want), di['loc'])
+            msg5 = 'in-place path decodes %s, declared fields %s' % (got, want)
+            if okp:
+                # on every path that finishes successfully, not only somewhere in the body
+                for pth in paths(t2):
+                    if pth and pth[-1][0] in ('ERR', '?ERR', 'PANIC'):
+                        continue
+                    gp = [_short_ty(e[1]) for e in pth if e[0] == 'dec']
+                    if gp != [_short_ty(x) for x in want]:
+                        arms = ['%s=%s' % (sym.vstr(e[1][1])[:50] if isinstance(e[1], tuple) and len(e[1]) > 1 else e[1], e[2]) for e in pth if e[0] == 'ARM']
+                        okp = False
+                        msg5 = 'a successful in-place path (under %s) decodes %s, declared fields %s' % (', '.join(arms), gp, want)
+                        break
+            out.ob('R05.5', 'decode_into fields %s' % nm, okp, msg5, di['loc'])
             # R10.5: a `?` exit after an earlier successful in-place decode of a field that needs drop
             if len(decs) >= 2:
                 leak = None
